@@ -1249,7 +1249,7 @@ func runR83(c *Ctx) {
 
 func init() {
 	register(&Rule{ID: "R84", Name: "OK-THEN-USE", Floor: 60,
-		Text: "for every comma-ok map lookup and comma-ok type assertion in the module whose ok result is branched on: every use of the value result lies on the ok==true side of that branch (edge dominance), or merges through a phi whose other inputs do. A negated or dropped test (`if ok { return error }`) hands the zero value (a nil column, an empty name entry) to the code that follows: a panic or a silently wrong result instead of the `unknown column` / `wrong type` error",
+		Text: "for every comma-ok map lookup and comma-ok type assertion in the module whose ok result is branched on: every use of the value result lies on the ok==true side of that branch (edge dominance), or merges through a phi whose other inputs do. A negated or dropped test (`if ok { return error }`) hands the zero value (a nil column, an empty name entry) to the code that follows: a panic or a silently wrong result instead of the `unknown column` / `wrong type` error; (c) a lookup / assertion whose value is used although its ok result is never looked at at all (the remains of `if !ok { return error }` with the body gone) is the same defect; (d) in a function that reports errors, the branch entered directly when ok is false does not return a nil error together with nothing but zero values (`return IntView{}, nil`, `return nil` from a decoder): a missing key or a foreign type is then reported as success - a failure branch that returns a value instead (the string column when the name is not configured as an enum) is an alternative, not a failure, and is left alone. Every one of the module's failure branches of this shape returns an error today",
 		Run:  runR84})
 }
 
@@ -1307,10 +1307,41 @@ func runR84(c *Ctx) {
 				}
 				trueEdges = append(trueEdges, [2]*ssa.BasicBlock{iff.Block(), iff.Block().Succs[0]})
 			}
+			key := fnm + "|" + what
+			if len(*okv.Referrers()) == 0 || onlyDebugRefs(okv) {
+				// (c) the ok result is never looked at: the branch on it guards nothing (an emptied `if !ok { }`)
+				used := false
+				for _, r := range *val.Referrers() {
+					if _, isDbg := r.(*ssa.DebugRef); !isDbg {
+						used = true
+					}
+				}
+				if used {
+					c.bad(key, p.instrPos(in), fmt.Sprintf("the ok result of this %s is never tested although its value is used: when the key is missing / the type differs the zero value is used instead of reporting the error", what))
+				}
+				return
+			}
 			if len(trueEdges) == 0 {
 				return
 			}
-			key := fnm + "|" + what
+			// (d) where the failure edge leads straight to a return of a function that reports errors, the return
+			// reports one
+			if ei := errResultIndex(fn.Signature); ei >= 0 {
+				for _, e := range trueEdges {
+					fail := e[0].Succs[0]
+					if fail == e[1] {
+						fail = e[0].Succs[1]
+					}
+					if len(fail.Preds) != 1 {
+						continue
+					}
+					if ret, isRet := fail.Instrs[len(fail.Instrs)-1].(*ssa.Return); isRet && returnsNilError(ret) && !returnsSomeValue(ret, ei) {
+						c.bad(key+" failure return", p.instrPos(ret), fmt.Sprintf("when this %s fails the function returns at once with a nil error: a missing key / an unexpected type is reported as success", what))
+					} else if isRet {
+						c.okTrivial(key+" failure return", p.instrPos(ret), "the failure edge returns an error")
+					}
+				}
+			}
 			underOk := func(b *ssa.BasicBlock) bool {
 				for _, e := range trueEdges {
 					si := 0
@@ -1373,6 +1404,44 @@ func runR84(c *Ctx) {
 			}
 		})
 	}
+}
+
+// returnsSomeValue: besides the error slot the return carries a result that is not the zero value of its type - the
+// failed lookup selected an alternative (`if values, ok := enums[name]; ok { enum column } ; return string column, nil`).
+func returnsSomeValue(ret *ssa.Return, ei int) bool {
+	for i, r := range ret.Results {
+		if i == ei {
+			continue
+		}
+		r = unspillResult(ret, r)
+		cst, ok := r.(*ssa.Const)
+		if !ok {
+			return true
+		}
+		if cst.Value != nil {
+			// a basic constant other than the zero value
+			if k, isK := constInt(cst); isK && k == 0 {
+				continue
+			}
+			if isConstBool(cst, false) {
+				continue
+			}
+			if sv, isS := constString(cst); isS && sv == "" {
+				continue
+			}
+			return true
+		}
+	}
+	return false
+}
+
+func onlyDebugRefs(v ssa.Value) bool {
+	for _, r := range *v.Referrers() {
+		if _, isDbg := r.(*ssa.DebugRef); !isDbg {
+			return false
+		}
+	}
+	return true
 }
 
 // ---- R90: every database/sql Scanner of the module consumes the value it accepts ----
